@@ -536,7 +536,7 @@ def gen_kindset_history_scenario(rng, via="api", runs=2):
     # return entry with a default or none, as in the regular scenarios.  Not drawn, because the unchanged tree fails on them
     # before any history: a class truth documenting `return_type: None = None` gives an argparse function whose return
     # statement doctrans cannot read back; a function truth `-> int` ending in `return 5` makes sync raise TypeError)
-    scn["with_returns"] = r < 0.65
+    scn["with_returns"] = r < (0.8 if scn["truth"] == "function" else 0.6)
     scn["returns_form"] = "none-documented" if scn["with_returns"] and scn["truth"] == "function" else None
     others = [k for k in KINDS if k != scn["truth"]]
     sets = [sorted(KINDS), sorted([scn["truth"], others[0]]), sorted([scn["truth"], others[1]])]
